@@ -54,7 +54,7 @@ class C10(PropBase):
             "split point of generated files <= 2 KiB and of the corpus witnesses, 1-byte trickle; random: chunk sizes around "
             "5/10/20/40/80/160 KiB on files with lines up to 80 KiB-1, fixed chunk sizes, tiny chunks; non-trivial = the schedule "
             "splits the input at least once and the input has >= 3 lines; distinct = distinct case lines")
-    trusted_base = G.TRUSTED + ["parse_async: a model of its own since round 5 (C10/Stream.v: the body of the reqwest::Response is a script of chunks of "
+    trusted_base = [t.replace("vm_compute only in the non-vacuity Examples", "vm_compute in the non-vacuity Examples and in the witness theorems c10_bound_is_tight / c10_band_top_dependent / c10_old_refill_refuted") for t in G.TRUSTED] + ["parse_async: a model of its own since round 5 (C10/Stream.v: the body of the reqwest::Response is a script of chunks of "
                                 "any size incl. empty ones and of failures); the harness builds a reqwest::Response whose body is a scripted "
                                 "http_body::Body (data frames incl. empty ones, an Err frame) and compares result, table, callback bytes/calls and "
                                 "callback slice lengths with run_stream; the refill block is regenerated from its source (translate/c10_stream.py, "
